@@ -3,6 +3,7 @@
    restorer.go on every run); Gen/RestTbl.v gives where every case applies spacing. *)
 From Coq Require Import List String ZArith NArith Bool.
 Import ListNotations.
+From DV Require Import Model.Cursor Gen.CursorSrc Proofs.CursorProofs.
 From DV Require Import Model.Tree Model.Tables Model.Restore Model.RestoreChecks Proofs.RestoreProofs
      Model.Skeleton Model.FragSkel Gen.Universe Gen.RestTbl Gen.FragTbl.
 Local Open Scope Z_scope.
@@ -65,8 +66,24 @@ Example C05_matrix :
   = [0; 1; 2; 1; 1; 2; 2; 2; 3].
 Proof. vm_compute. reflexivity. Qed.
 
+
+(* applySpace (decorator/restorer.go) is translated on every run into a cursor program
+   (Gen/CursorSrc.v: applySpace_src) and proved to compute Model/Restore.apply_space for EVERY state,
+   node kind, position string and spacing: the BadXXX override, the count 0/1/2 minus one at a line
+   start, and per line break the two cursor steps around the recorded line offset *)
+Theorem C05_applySpace_source_computes_the_model :
+  forall s kind id pos sp,
+    let env' := exec_list applySpace_src (space_env s kind id pos sp) in
+    e_rs env' = apply_space s (is_bad_kind kind) (String.eqb pos "After") sp /\ e_stuck env' = false.
+Proof. exact applySpace_source_is_model. Qed.
+
+Theorem C05_applySpace_source_is_within_the_language : program_known applySpace_src = true.
+Proof. vm_compute. reflexivity. Qed.
+
 Print Assumptions C05_spacing_brackets_node.
 Print Assumptions C05_cursor_advances_only_over_what_is_printed.
 Print Assumptions C05_apply_space_count.
 Print Assumptions C05_sibling_spacing.
 Print Assumptions C05_trailing_line_comment_neutral.
+Print Assumptions C05_applySpace_source_computes_the_model.
+Print Assumptions C05_applySpace_source_is_within_the_language.
